@@ -680,6 +680,10 @@ def afterOpen (fs : FS) (df : String) (overwrite : Bool) : FS :=
 def copyOp (fs : FS) (v : Variant) (sf : String) (sp : Path) (df : String) (dp : Path)
     (overwrite link rename soft : Bool) : FS × Outcome :=
   if (link && rename) || (link && soft) || (rename && soft) then (fs, .err .value) else
+  -- fix D26: same-file mv / ln / ln -s whose destination equals or lies under the source group is
+  -- refused before any file is opened (`(dst_group + "/").startswith(src_group.rstrip("/") + "/")`,
+  -- on components for paths without repeated slashes); `cp` into itself stays allowed
+  if decide (sf = df) && (link || rename || soft) && under sp dp then (fs, .err .value) else
   -- `h5py.File(src_path, "r+" if same else "r")`
   match getFile fs sf with
   | none => (fs, .err .os)
